@@ -119,5 +119,76 @@ def selftest():
         expect(f"transform {how}: output parses", ok)
     expect("transform inline folds with_temporary", "t = g(a)" not in transforms.inline_temps(src))
     expect("transform extract names the nested call", "_xt1 = g(a)" in transforms.extract_args(src))
+    # ---- canonical form of the loader: pairs of spellings that must come out identical, and one that must not
+    from .core.normalise import normalise
+
+    def canon(src_):
+        return ast.unparse(normalise(ast.parse(src_)))
+    PAIRS = [
+        ("guard clause / else nesting",
+         "def f(x):\n    if x is None:\n        return 0\n    return x + 1\n",
+         "def f(x):\n    if x is not None:\n        return x + 1\n    else:\n        return 0\n"),
+        ("nested ifs / conjunction",
+         "def f(a, b, s):\n    if a:\n        if b:\n            s.append(1)\n",
+         "def f(a, b, s):\n    if a and b:\n        s.append(1)\n"),
+        ("append loop / comprehension",
+         "def f(xs):\n    out = []\n    k = 3\n    for x in xs:\n        if x > k:\n            out.append(x)\n    return out\n",
+         "def f(xs):\n    k = 3\n    out = [x for x in xs if k < x]\n    return out\n"),
+        ("counting loop / sum",
+         "def f(xs, s):\n    n = 0\n    for x in xs:\n        if x in s:\n            n += 1\n    return n\n",
+         "def f(xs, s):\n    return sum(1 for x in xs if x in s)\n"),
+        ("pop with default / membership test",
+         "def f(d, k):\n    d.pop(k, None)\n",
+         "def f(d, k):\n    if k in d:\n        del d[k]\n"),
+        ("first match / loop with break",
+         "def f(xs, p):\n    r = next((x for x in xs if p(x)), None)\n    return r\n",
+         "def f(xs, p):\n    r = None\n    for x in xs:\n        if p(x):\n            r = x\n            break\n    return r\n"),
+        ("update with a dict comprehension / store loop",
+         "def f(d, c):\n    d.update({'k_' + k: v for k, v in c.items()})\n",
+         "def f(d, c):\n    for k, v in c.items():\n        d['k_' + k] = v\n"),
+        ("tuple assignment / two assignments",
+         "def f(a, b):\n    x, y = a + 1, b\n    return x * y\n",
+         "def f(a, b):\n    x = a + 1\n    y = b\n    return x * y\n"),
+    ]
+    for name, a_, b_ in PAIRS:
+        expect(f"canonical form: {name}", canon(a_) == canon(b_))
+    expect("canonical form keeps a swapped comparison apart (x < k is not k < x)",
+           canon("def f(x, k):\n    return x < k\n") != canon("def f(x, k):\n    return k < x\n"))
+    expect("canonical form does not build a comprehension when the loop variable is used afterwards",
+           "for x in xs" in canon("def f(xs):\n    out = []\n    for x in xs:\n        out.append(x)\n    return out, x\n"))
+    # ---- re-identification: a renamed private method and an extracted single-caller helper are undone, a shared helper is left alone
+    from .core.reidentify import build_inventory, reidentify
+    OLD = ("class K:\n    def run(self, xs):\n        t = self._total(xs)\n        if t > 3:\n            self._n = t\n        return t\n"
+           "    def _total(self, xs):\n        s = 0\n        for x in xs:\n            s = s + x\n        return s\n")
+    NEW = ("class K:\n    def run(self, xs):\n        t = self._sum_up(xs)\n        self._remember(t)\n        return t\n"
+           "    def _remember(self, t):\n        if t > 3:\n            self._n = t\n"
+           "    def _sum_up(self, xs):\n        acc = 0\n        for x in xs:\n            acc = acc + x\n        return acc\n")
+    inv = build_inventory({"k.py": ast.parse(OLD)})
+    tr = {"k.py": ast.parse(NEW)}
+    what = reidentify(tr, inv)
+    got = ast.unparse(tr["k.py"])
+    expect("re-identification: renamed private method is renamed back", what["renamed_back"] == {"_sum_up": "_total"} and "_total" in got)
+    expect("re-identification: new single-caller helper is expanded at its call site", what["helpers_expanded"] == 1 and "_remember" not in got
+           and "self._n = t" in got)
+    TWO = NEW + "    def other(self, t):\n        self._remember(t)\n"
+    tr2 = {"k.py": ast.parse(TWO)}
+    reidentify(tr2, inv)
+    expect("re-identification: a helper with two callers is left alone", "def _remember" in ast.unparse(tr2["k.py"]))
+    # ---- reaching definitions / origins on a fixture function
+    from .engine import origins
+    src_r = ("def g(result, flag):\n    row = dict(result)\n    if flag:\n        row = result\n    row['a'] = 1\n"
+             "    result = row\n    result['b'] = 2\n")
+    try:
+        P2 = Program(root=FX, package="fxpkg", overlay={"fxpkg/_reach.py": src_r})
+        g_ = P2.func("fxpkg._reach.g")
+        cfg_ = cfg_of(g_)
+        st_a = [n.id for n in cfg_.nodes if n.kind == "stmt" and isinstance(n.ast, ast.Assign) and "['a']" in ast.unparse(n.ast)][0]
+        o_ = origins(g_, "row", st_a)
+        expect("origins: both reaching definitions are seen, aliases followed to the parameter",
+               "param:result" in o_ and any(isinstance(x, ast.Call) for x in o_))
+        st_b = [n.id for n in cfg_.nodes if n.kind == "stmt" and isinstance(n.ast, ast.Assign) and "['b']" in ast.unparse(n.ast)][0]
+        expect("same_object: `result` after `result = row` is the object `row` held", common.same_object(g_, "row", st_a)("result", st_b))
+    except Exception as e:      # pragma: no cover
+        expect(f"reaching definitions fixture ({type(e).__name__}: {e})", False)
     print("selftest:", "FAILED " + str(fails) if fails else "all passed")
     return 1 if fails else 0
